@@ -18,6 +18,7 @@ DEC_SETUP = '''
   __CPROVER_assume(g_delivered < (1UL << 60) && g_delivered >= eo);
   g_win_start = g_delivered - eo;
   __CPROVER_assume(STREAM_OK(&in));
+  __CPROVER_assume(in.eofbit || in.failbit || in.badbit || eo == 65535 || (eo == 0 && g_delivered == 0));
   __CPROVER_assume(g_Wh != g_Wd || g_wh == g_wb);
   __CPROVER_assume(DEC_WIN(&obj));
 '''
@@ -175,3 +176,114 @@ UNITS.append(Unit('dec.read_integer', (DEC + 'read_integer', None), setup=DEC_SE
                   replace=['dec.peek_type', 'dec.read_unsigned', 'dec.read_negative'],
                   contract=head_reader('(MT($h) != 0x00 && MT($h) != 0x20) || AIV($h) >= 28', 'ARGN(AIV($h))',
                                        arg_value('(MT($h) == 0x00 ? (unsigned long)$ret : (unsigned long)(-1L - $ret))')), **HR))
+
+# ---------------------------------------------------------------- read_string (three loop contracts)
+LOOPASG = '$this->m_p, $this->m_end, __CPROVER_object_whole($this->m_buffer), __CPROVER_object_whole($this->m_input), g_delivered, g_win_start, g_exc, @BINDS'
+ACCT = 'DEC_POS($this) >= @P0 && DEC_POS($this) - @P0 <= @A0 && DEC_AVAIL($this) == @A0 - (DEC_POS($this) - @P0)'
+BADCHUNK = '(g_wh != 0xFF && (MT(g_wh) != $1 || AIV(g_wh) == 31))'
+RSTR_C = COMMON_REQ + DEC_ASSIGNS + '''
+__CPROVER_requires(g_reserve_max == DEC_AVAIL($this))
+__CPROVER_requires($1 == 0x40 || $1 == 0x60)
+__CPROVER_ensures(g_exc == 0 ==> __CPROVER_pointer_in_range_dfcc($this->m_buffer, $this->m_p, $this->m_buffer + DEC_BUF))
+__CPROVER_ensures(EXC3(g_exc))
+__CPROVER_ensures(g_exc == 0 ==> (DEC_INV($this) && DEC_WIN($this) && ''' + ACCT + '''))
+__CPROVER_ensures(!$3 ==> g_exc != EXC_CdnsDecoderException)
+__CPROVER_ensures((!$3 && $2 < (1UL << 32)) ==> ((@A0 < $2) == (g_exc == EXC_CdnsDecoderEnd)))
+__CPROVER_ensures((!$3 && $2 < (1UL << 32) && g_exc == 0) ==> (DEC_POS($this) == @P0 + $2 && $ret.len == $2))
+__CPROVER_ensures((!$3 && $2 < (1UL << 32) && g_exc == 0 && g_Ws < $2 && g_Wd == @P0 + g_Ws) ==> $ret.wch == g_wb)
+__CPROVER_ensures(($3 && g_exc == 0) ==> (DEC_POS($this) >= @P0 + 1 && $ret.len <= DEC_POS($this) - @P0 - 1))
+__CPROVER_ensures(($3 && g_exc == 0 && g_Wh + 1 == DEC_POS($this)) ==> g_wh == 0xFF)
+__CPROVER_ensures(($3 && g_exc == EXC_CdnsDecoderException && g_Wh + 1 == DEC_POS($this)) ==> ''' + BADCHUNK + ''')
+__CPROVER_ensures(($3 && @A0 == 0) ==> g_exc == EXC_CdnsDecoderEnd)
+'''
+RSTR_L1 = '''
+  __CPROVER_assigns($L1, $L2, ''' + LOOPASG + ''')
+  __CPROVER_loop_invariant(!$3 && (unsigned long)$L2 <= $2 && g_exc == 0 && DEC_INV($this) && DEC_WIN($this) && g_dbuf == $this->m_buffer)
+  __CPROVER_loop_invariant(''' + ACCT + ''')
+  __CPROVER_loop_invariant($2 < (1UL << 32) ==> (DEC_POS($this) == @P0 + $L2 && $L1.len == $L2))
+  __CPROVER_loop_invariant(($2 < (1UL << 32) && g_Ws < $L2 && g_Wd == @P0 + g_Ws) ==> $L1.wch == g_wb)
+  __CPROVER_decreases(DEC_AVAIL($this))
+'''
+RSTR_L2 = '''
+  __CPROVER_assigns($L1, ''' + LOOPASG + ''')
+  __CPROVER_loop_invariant($3 && g_exc == 0 && DEC_INV($this) && DEC_WIN($this) && g_dbuf == $this->m_buffer)
+  __CPROVER_loop_invariant(''' + ACCT + ''' && $L1.len <= DEC_POS($this) - @P0)
+  __CPROVER_decreases(DEC_AVAIL($this))
+'''
+RSTR_L3 = '''
+  __CPROVER_assigns($L1, $L6, ''' + LOOPASG + ''')
+  __CPROVER_loop_invariant($3 && g_exc == 0 && DEC_INV($this) && DEC_WIN($this) && g_dbuf == $this->m_buffer)
+  __CPROVER_loop_invariant(''' + ACCT + ''' && DEC_POS($this) >= @P0 + 1 && $L1.len <= DEC_POS($this) - @P0 - 1)
+  __CPROVER_decreases(DEC_AVAIL($this))
+'''
+CSTR = ['cstring__empty', 'cstring__reserve', 'cstring__push_back', 'cstring__size']
+UNITS.append(Unit('dec.read_string', (DEC + 'read_string', None), contract=RSTR_C, loops={1: RSTR_L1, 2: RSTR_L2, 3: RSTR_L3},
+                  prelude=P, opaque=OPQ, stubs=STUBS + CSTR,
+                  replace=RTB + ['dec.peek_type', 'dec.read_cbor_type', 'dec.read_int', 'dec.read_break'],
+                  setup=DEC_SETUP + '  unsigned char a_ct; __CPROVER_assume(a_ct == 0x40 || a_ct == 0x60); unsigned long a_len; _Bool a_indef = A_INDEF;\n  g_reserve_max = DEC_AVAIL(&obj);\n',
+                  args=['&obj', 'a_ct', 'a_len', 'a_indef'], ghost=GH, props=['C07', 'C05', 'C03'], timeout=3000, split=True, object_bits=10,
+                  variants=[('definite', ['A_INDEF 0']), ('indefinite', ['A_INDEF 1'])],
+                  bind='g_reserve_max = DEC_AVAIL($A0);', bind_assigns=['g_reserve_max'],
+                  post='  if (g_exc == EXC_CdnsDecoderEnd) { CANARY("end of input reachable"); }',
+                  note='definite strings of any length < 2^32 (the code counts bytes in an unsigned int): exact length, position, bytes in order, '
+                       'end-of-input iff too few bytes; chunked strings: a normal return ends on the stop code, a format error is raised only '
+                       'for a chunk head that is not the stop code and has the wrong major type or is itself indefinite, every loop consumes '
+                       'input (decreases), reserve() never sized by an unchecked length field. The full chunk grammar is the bounded unit dec.bmc.'))
+
+# ---------------------------------------------------------------- bounded stand-ins (labelled bounded; not counted as proved)
+from driver import BmcUnit
+ALLDEC = [(DEC + n, None) for n in ('skip_item', 'read_cbor_type', 'read_int', 'read_string', 'read_to_buffer', 'peek_type', 'read_break',
+                                    'read_bytestring', 'read_textstring')]
+BMC_SETUP = '''
+  static unsigned char dbufobj[65535];
+  struct istream in; struct CdnsDecoder obj;
+  __CPROVER_assume(g_n <= NB);
+  in.eofbit = 0; in.failbit = 0; in.badbit = 0; in.remaining = g_n; in.gcnt = 0;
+  obj.m_input = &in; obj.m_buffer = dbufobj; obj.m_p = dbufobj; obj.m_end = dbufobj;
+  g_delivered = 0; g_exc = 0;
+'''
+BMC_SKIP = BMC_SETUP + '''
+  /* nesting bound: at most 2 bytes that open a nested item (array, map, tag, chunked string) */
+  { unsigned nopen = 0; for (unsigned i = 0; i < NB; i++) { unsigned char b = g_in[i]; if ((b & 0xe0) == 0x80 || (b & 0xe0) == 0xa0 || (b & 0xe0) == 0xc0 || b == 0x5f || b == 0x7f) nopen++; } __CPROVER_assume(nopen <= 2); }
+  CdnsDecoder__skip_item(&obj);
+  unsigned long end = 0;
+  int r = ref_skip(0, &end);
+  unsigned long pos = g_delivered - (unsigned long)(obj.m_end - obj.m_p);
+  __CPROVER_assert(g_exc == 0 || g_exc == EXC_CdnsDecoderEnd || g_exc == EXC_CdnsDecoderException, "skip_item fails only by a decoder exception");
+  __CPROVER_assert(r != R_OK || g_exc == 0, "skip_item accepts every well-formed item");
+  __CPROVER_assert(r != R_OK || g_exc != 0 || pos == end, "skip_item consumes exactly the one item (next read starts at the following item)");
+  __CPROVER_assert(r != R_END || g_exc != 0, "a truncated item is not skipped successfully");
+  if (r == R_OK && g_exc == 0) { CANARY("well-formed item skipped"); }
+'''
+UNITS.append(BmcUnit('dec.bmc.skip_item', ALLDEC, BMC_SKIP, 'bmc_dec.h', unwind=7, defines=['NB 4'], unwindset=['CdnsDecoder__skip_item:3'], props=['C07', 'C08'], opaque=OPQ,
+                     stubs=STUBS + CSTR,
+                     bound_text='BOUNDED: every input of at most 4 bytes (all 2^32 byte strings and all shorter ones), real skip_item and all its '
+                                'callees inlined, compared with a reference RFC 8949 parser; loops and recursion unwound 7 times with unwinding assertions',
+                     note='covers tags with content, nested and indefinite containers, chunked strings, floats/simple values within 4 bytes'))
+BMC_STR = BMC_SETUP + '''
+  _Bool text;
+  cstring s;
+  if (text) s = CdnsDecoder__read_textstring(&obj); else s = CdnsDecoder__read_bytestring(&obj);
+  unsigned long end = 0;
+  int r = ref_skip(0, &end);
+  unsigned long pos = g_delivered - (unsigned long)(obj.m_end - obj.m_p);
+  _Bool is_str = g_n > 0 && (g_in[0] & 0xe0) == (text ? 0x60 : 0x40);
+  __CPROVER_assert(g_exc == 0 || g_exc == EXC_CdnsDecoderEnd || g_exc == EXC_CdnsDecoderException, "string read fails only by a decoder exception");
+  __CPROVER_assert(!(is_str && r == R_OK) || g_exc == 0, "every well-formed string (definite or chunked) is accepted");
+  __CPROVER_assert(!(is_str && r == R_OK && g_exc == 0) || pos == end, "the string read consumes exactly the string item");
+  /* content: concatenation of the chunks, computed by the reference */
+  if (is_str && r == R_OK && g_exc == 0) {
+    unsigned long n = 0; unsigned char ref[NB];
+    if ((g_in[0] & 0x1f) != 31) { unsigned long hl = 1 + ARGN_(g_in[0] & 0x1f); for (unsigned long i = 0; i < NB; i++) if (hl + i < end) { ref[n] = g_in[hl + i]; n++; } }
+    else { unsigned long p = 1; for (int c = 0; c < NB; c++) { if (p < g_n && g_in[p] != 0xff) { unsigned long hl = 1 + ARGN_(g_in[p] & 0x1f); unsigned long len = 0;
+             unsigned mt, ai; unsigned long arg, nx; ref_head(p, &mt, &ai, &arg, &nx); for (unsigned long i = 0; i < NB; i++) if (i < arg) { ref[n] = g_in[nx + i]; n++; } p = nx + arg; } } }
+    __CPROVER_assert(s.len == n, "string length = sum of chunk lengths");
+    unsigned long k; __CPROVER_assume(k < n && k < NB);
+    __CPROVER_assert(n == 0 || s.b[k] == ref[k], "string bytes = concatenation of the chunk payloads");
+    CANARY("well-formed string read");
+  }
+'''
+UNITS.append(BmcUnit('dec.bmc.read_string', ALLDEC, BMC_STR, 'bmc_dec.h', unwind=7, defines=['NB 4', 'ARGN_(ai) ((ai) < 24 ? 0UL : (ai) == 24 ? 1UL : (ai) == 25 ? 2UL : (ai) == 26 ? 4UL : 8UL)'],
+                     props=['C07', 'C08'], opaque=OPQ, stubs=STUBS + CSTR,
+                     bound_text='BOUNDED: every input of at most 4 bytes, real read_bytestring/read_textstring with all callees inlined, compared with a reference '
+                                'parser (definite and chunked strings); unwound 7 times with unwinding assertions'))
